@@ -617,6 +617,17 @@ fn handle_run_request(
                 Err(CommandError::Action(EvalAction::Replace(expr))) => {
                     let stack_frame = env.stack.0.last_mut().unwrap();
 
+                    if stack_frame.exprs_to_eval.is_empty() {
+                        return Response {
+                            kind: ResponseKind::RunCommand {
+                                message: ":replace can only be used when an evaluation has stopped in this stack frame.".to_owned(),
+                                stack_frame_name: Some(env.top_frame_name()),
+                            },
+                            position: None,
+                            id,
+                        };
+                    }
+
                     stack_frame.evalled_values.pop();
                     stack_frame
                         .exprs_to_eval
@@ -627,10 +638,16 @@ fn handle_run_request(
                 Err(CommandError::Action(EvalAction::Skip)) => {
                     let stack_frame = env.stack.0.last_mut().unwrap();
 
-                    stack_frame
-                        .exprs_to_eval
-                        .pop()
-                        .expect("Tried to skip an expression, but none in this frame.");
+                    if stack_frame.exprs_to_eval.pop().is_none() {
+                        return Response {
+                            kind: ResponseKind::RunCommand {
+                                message: ":skip can only be used when an evaluation has stopped in this stack frame.".to_owned(),
+                                stack_frame_name: Some(env.top_frame_name()),
+                            },
+                            position: None,
+                            id,
+                        };
+                    }
 
                     eval_to_response(env, session)
                 }
